@@ -1,0 +1,39 @@
+//go:build verif
+// +build verif
+
+package pipe
+
+// Accessors for the C10/C11 correspondence harnesses (verification build only).
+
+// VC10PipeState returns Pos, LastKnwnPos and wCharged of the descriptor the pipe `name` keeps for the
+// source partition `src`; ok is false when the pipe or the descriptor does not exist.
+func (s *Service) VC10PipeState(name, src string) (pos, lastKnwn string, charged, ok bool) {
+	s.lock.Lock()
+	pp, found := s.ppipes[name]
+	s.lock.Unlock()
+	if !found {
+		return "", "", false, false
+	}
+	pp.lock.Lock()
+	defer pp.lock.Unlock()
+	pd, found := pp.partitions[src]
+	if !found {
+		return "", "", false, false
+	}
+	return pd.Pos.String(), pd.LastKnwnPos.String(), pd.wCharged, true
+}
+
+// VC10WithPipeLock runs f while holding the lock of the pipe `name` (so the notificatior stops in
+// onWriteEvent of that pipe). Returns false if there is no such pipe.
+func (s *Service) VC10WithPipeLock(name string, f func()) bool {
+	s.lock.Lock()
+	pp, found := s.ppipes[name]
+	s.lock.Unlock()
+	if !found {
+		return false
+	}
+	pp.lock.Lock()
+	defer pp.lock.Unlock()
+	f()
+	return true
+}
